@@ -141,3 +141,14 @@ reg("C03", "other",
     "indexing/asserting constructor is reachable from the reader, the record number is ignored; sequential iteration stops "
     "exactly at twice the declared length. Not decided: equality of decoded and encoded doubles; non-conformant input (C07).",
     note=TRUST + "; spec/esri.json transcribed correctly from the whitepaper")
+reg("C01", "other",
+    "encoder/decoder symmetry of abstract layouts (E2) for all 13 types and both framing layers, part-offset algebra, "
+    "four-point ordering domain for the measure normalisation (E6), reversal/classification tables (E1)",
+    "Oracle = the sibling implementation. Decided for every type and every part/point count (the quantifier the suite cannot "
+    "reach): writer layout = reader layout on the M-present valuation, item by item, with every value copied from / stored to the "
+    "same field path (slot binding, no arithmetic on coordinates) and every repetition governed by the count the writer derived "
+    "from the same collection; header, record header and type code pairs agree; the reader's part iterator turns prefix-sum "
+    "offsets back into lengths that telescope to NumPoints; measures of multi-vertex shapes go through max(v, NO_DATA) only "
+    "(single points raw); the reader's ring classification uses the constructors' orientation function and identity table; "
+    "record framing hands the content reader exactly the announced size; patch kind tables compose to the identity and "
+    "patch i pairs with part i. Not decided: bit-level inverse property of byteorder, the BufWriter/BufReader route, counts >= 2^31.")
